@@ -1,6 +1,6 @@
 //! C05: starts_with / ends_with / strip_prefix / strip_suffix / trim_*_matches / whitespace trimming
 //! on byte slices (`b.`) and strs (`st.`) vs std.
-use crate::c04::{as_char, kinds_for, random_case, with_bpat, with_spat, Kind};
+use crate::c04::{as_char, kinds_for, kinds_for_big, random_case, with_bpat, with_spat, Alpha, Kind};
 use crate::util::*;
 use konst::slice as ks;
 use konst::string as kst;
@@ -103,6 +103,130 @@ fn ws_str(h: &str, out: &mut Out) {
     out.emit(&format!("st.trim {}", hh), &catch(|| view_str(h, kst::trim(h))), &view_str(h, h.trim_ascii()), true);
     out.emit(&format!("st.trim_start {}", hh), &catch(|| view_str(h, kst::trim_start(h))), &view_str(h, h.trim_ascii_start()), true);
     out.emit(&format!("st.trim_end {}", hh), &catch(|| view_str(h, kst::trim_end(h))), &view_str(h, h.trim_ascii_end()), true);
+}
+
+/// LARGE strip/trim case: a needle of 3..=12 letters (random, or with internal periodicity: a unit
+/// repeated, possibly plus a partial unit, e.g. "abab", "aba", "aabaab") and a haystack
+/// `needle^k1 ++ partial ++ middle ++ partial ++ needle^k2` with k up to 12
+fn large_rep_case(rng: &mut Rng, alpha: Alpha) -> (Vec<u8>, Vec<u8>) {
+    let nl = 3 + rng.below(10) as usize;
+    let needle: Vec<Vec<u8>> = if rng.below(2) == 0 {
+        (0..nl).map(|_| alpha.letter(rng)).collect()
+    } else {
+        let p = 1 + rng.below(1 + nl as u64 / 2) as usize;
+        let unit: Vec<Vec<u8>> = (0..p).map(|_| alpha.letter(rng)).collect();
+        (0..nl).map(|i| unit[i % p].clone()).collect()
+    };
+    let reps = |rng: &mut Rng| match rng.below(4) {
+        0 => 0,
+        1 => 1 + rng.below(2) as usize,
+        _ => 3 + rng.below(10) as usize,
+    };
+    let mut hay: Vec<Vec<u8>> = Vec::new();
+    for _ in 0..reps(rng) {
+        hay.extend(needle.iter().cloned());
+    }
+    // a partial repetition behind the leading ones (a prefix of the needle; sometimes a suffix)
+    let k = rng.below(nl as u64 + 1) as usize;
+    if rng.below(4) == 0 {
+        hay.extend(needle[k..].iter().cloned());
+    } else {
+        hay.extend(needle[..k].iter().cloned());
+    }
+    match rng.below(4) {
+        0 => {}
+        1 => hay.push(alpha.letter(rng)),
+        _ => {
+            for _ in 0..rng.below(30) {
+                hay.push(alpha.letter(rng));
+            }
+        }
+    }
+    let k = rng.below(nl as u64 + 1) as usize;
+    if rng.below(4) == 0 {
+        hay.extend(needle[..k].iter().cloned());
+    } else {
+        hay.extend(needle[k..].iter().cloned());
+    }
+    for _ in 0..reps(rng) {
+        hay.extend(needle.iter().cloned());
+    }
+    (hay.concat(), needle.concat())
+}
+
+/// bytes 0x00..=0x20, 0x7F, 0x85, 0xA0: the five ASCII whitespace bytes and their non-whitespace
+/// neighbours (incl. 0x0B, 0x1C..0x1F, NEL and NBSP, which `trim_ascii` leaves alone)
+fn ctl_byte(rng: &mut Rng) -> u8 {
+    match rng.below(36) {
+        k @ 0..=32 => k as u8,
+        33 => 0x7F,
+        34 => 0x85,
+        _ => 0xA0,
+    }
+}
+fn ws_byte(rng: &mut Rng) -> u8 {
+    [b' ', b'\t', b'\n', 0x0c, b'\r'][rng.below(5) as usize]
+}
+
+/// a run of 10..=40 bytes for one end of the input: mostly a long run of real whitespace with
+/// non-whitespace control bytes mixed in at a random depth (`outer_first`: the whitespace run is on
+/// the outer side)
+fn ws_run(rng: &mut Rng) -> Vec<u8> {
+    let len = 10 + rng.below(31) as usize;
+    // position (from the outer side) of the first byte that may be non-whitespace
+    let clean = match rng.below(4) {
+        0 => len,
+        1 => rng.below(3) as usize,
+        _ => rng.below(len as u64 + 1) as usize,
+    };
+    (0..len).map(|i| if i < clean || rng.below(3) != 0 { ws_byte(rng) } else { ctl_byte(rng) }).collect()
+}
+
+/// bytes >= 0x80 re-encoded as the two-byte UTF-8 form of the same code point (U+0085, U+00A0)
+fn latin1_to_utf8(b: &[u8]) -> String {
+    b.iter().map(|&x| x as char).collect()
+}
+
+fn run_large(thorough: bool, seed: u64, out: &mut Out) {
+    let mut rng = Rng(seed ^ 0xC05_1A26E);
+    let cases = if thorough { 1500 } else { 150 };
+    for i in 0..cases {
+        let alpha = [Alpha::Two, Alpha::Four, Alpha::Raw256, Alpha::Utf4, Alpha::AnyChar, Alpha::Two][i % 6];
+        let (h, n) = large_rep_case(&mut rng, alpha);
+        let kinds = kinds_for_big(&n);
+        bytes_case(&h, &n, kinds[(i / 6) % kinds.len()], out);
+        if let (Ok(hs), true) = (std::str::from_utf8(&h), std::str::from_utf8(&n).is_ok()) {
+            let sk = str_kinds(&n);
+            str_case(hs, &n, sk[(i / 6) % sk.len()], out);
+        }
+    }
+    // whitespace runs of 10..=40 bytes at both ends
+    let wcases = if thorough { 4000 } else { 400 };
+    for _ in 0..wcases {
+        let mut w = ws_run(&mut rng);
+        match rng.below(8) {
+            0 => {} // nothing but the two runs (often all whitespace)
+            1 => w.push(ctl_byte(&mut rng)),
+            _ => {
+                for _ in 0..1 + rng.below(12) {
+                    w.push(if rng.below(3) == 0 { ctl_byte(&mut rng) } else { b'a' + rng.below(26) as u8 });
+                }
+            }
+        }
+        let mut tail = ws_run(&mut rng);
+        tail.reverse();
+        w.extend_from_slice(&tail);
+        ws_bytes(&w, out);
+        match std::str::from_utf8(&w) {
+            Ok(s) => ws_str(s, out),
+            Err(_) => {
+                // the same with NEL / NBSP as the chars U+0085 / U+00A0
+                let s = latin1_to_utf8(&w);
+                ws_str(&s, out);
+                ws_bytes(s.as_bytes(), out);
+            }
+        }
+    }
 }
 
 pub fn run(tier: &str, seed: u64, out: &mut Out) {
@@ -258,4 +382,5 @@ pub fn run(tier: &str, seed: u64, out: &mut Out) {
             }
         }
     }
+    run_large(thorough, seed, out);
 }
